@@ -18,6 +18,65 @@ class HarnessError(RuntimeError):
     pass
 
 
+class SimDeadlock(RuntimeError):
+    """Every simulated thread is blocked on a (simulated) lock."""
+
+
+_ACTIVE_SCHED = [None]
+
+
+class SimLock:
+    """Lock / RLock handed out by the shim: contention yields the baton
+    instead of blocking the (only running) real thread."""
+
+    def __init__(self, reentrant):
+        self.reentrant = reentrant
+        self.owner = None
+        self.count = 0
+        self.waiters = []
+
+    def _me(self):
+        sched = _ACTIVE_SCHED[0]
+        if sched is None:
+            return None, None
+        return sched, sched.index_of_current()
+
+    def acquire(self, blocking=True, timeout=-1):
+        sched, me = self._me()
+        while True:
+            if self.owner is None or (self.reentrant and self.owner == me and me is not None):
+                self.owner = me
+                self.count += 1
+                return True
+            if sched is None or me is None:
+                # outside a simulated run there is only one thread: a contended non-reentrant lock is a self-deadlock
+                raise SimDeadlock("lock re-acquired by the only thread")
+            if not blocking:
+                return False
+            sched.lock_contentions += 1
+            sched.block_on(me, self)
+
+    def release(self):
+        sched, me = self._me()
+        if self.owner is None:
+            raise RuntimeError("release unlocked lock")
+        self.count -= 1
+        if self.count <= 0:
+            self.count = 0
+            self.owner = None
+            if self.waiters and sched is not None:
+                sched.unblock(self.waiters.pop(0))
+
+    def locked(self):
+        return self.owner is not None
+
+    __enter__ = acquire
+
+    def __exit__(self, *exc):
+        self.release()
+        return False
+
+
 class ThreadingShim:
     """Stands in for the ``threading`` module inside cotengra modules so that
     thread identities are simulator-assigned (and can be *reused* after a
@@ -28,6 +87,12 @@ class ThreadingShim:
 
     def get_ident(self):
         return self._idents.get(_real_get_ident(), 1)
+
+    def Lock(self):
+        return SimLock(False)
+
+    def RLock(self):
+        return SimLock(True)
 
     def __getattr__(self, name):
         return getattr(_real_threading, name)
@@ -113,6 +178,37 @@ class Scheduler:
         self.switches = 0
         self.sig = []  # (from, to, function) at each context switch
         self._wl_cache = {}
+        self.lock_contentions = 0
+        self.deadlock = False
+        self._real_to_index = {}
+
+    def index_of_current(self):
+        return self._real_to_index.get(_real_get_ident())
+
+    def block_on(self, i, lock):
+        """Thread i cannot take ``lock``: park it and run somebody else."""
+        if self.deadlock:
+            raise SimDeadlock("deadlock")
+        self.state[i] = "blocked-lock"
+        lock.waiters.append(i)
+        r = self._runnable()
+        if not r:
+            self.deadlock = True
+            self.state[i] = "runnable"
+            lock.waiters.remove(i)
+            raise SimDeadlock("all simulated threads are blocked on locks")
+        nxt = self.chooser.choose(None, r, self.points)
+        self.trace.append(nxt)
+        self.switches += 1
+        self.sig.append((i, nxt, "lock-wait"))
+        self.sems[nxt].release()
+        self._wait(i)
+        if self.deadlock:
+            raise SimDeadlock("all simulated threads are blocked on locks")
+
+    def unblock(self, i):
+        if self.state[i] == "blocked-lock":
+            self.state[i] = "runnable"
 
     # baton ---------------------------------------------------------------------
     def _wait(self, i):
@@ -157,6 +253,7 @@ class Scheduler:
     def _thread_main(self, i, fn):
         self._wait(i)
         SHIM._idents[_real_get_ident()] = self.idents[i]
+        self._real_to_index[_real_get_ident()] = i
         sys.settrace(self._tracer(i))
         try:
             fn()
@@ -169,7 +266,16 @@ class Scheduler:
             for j, dep in enumerate(self.start_after):
                 if dep == i and self.state[j] == "blocked":
                     self.state[j] = "runnable"
+            self._real_to_index.pop(_real_get_ident(), None)
             r = self._runnable()
+            if not r:
+                stuck = [j for j, st in enumerate(self.state) if st == "blocked-lock"]
+                if stuck:
+                    # the threads still parked on locks can never run again: wake them to fail with SimDeadlock
+                    self.deadlock = True
+                    for j in stuck:
+                        self.state[j] = "runnable"
+                    r = self._runnable()
             if r:
                 nxt = self.chooser.choose(None, r, self.points)
                 self.trace.append(nxt)
@@ -190,6 +296,7 @@ class Scheduler:
         self.errors = [None] * n
         threads = [_real_threading.Thread(target=self._thread_main, args=(i, fns[i]), daemon=True, name=f"sim-{i}")
                    for i in range(n)]
+        _ACTIVE_SCHED[0] = self
         for t in threads:
             t.start()
         r = self._runnable()
@@ -202,6 +309,7 @@ class Scheduler:
             t.join(timeout=10)
             if t.is_alive():
                 raise HarnessError("scheduler: thread did not exit")
+        _ACTIVE_SCHED[0] = None
         for e in self.errors:
             if isinstance(e, HarnessError):
                 raise e
